@@ -1,0 +1,82 @@
+//go:build verif
+
+package bondgo
+
+import (
+	"os"
+	"runtime"
+	"strconv"
+	"sync/atomic"
+	"time"
+)
+
+// Verification hook (build tag `verif` only): schedule perturbation points placed before the
+// channel sends of Var_assigner and Usage_Monitor.
+//
+// Sites: 1 = Var_assigner before `useditem <-` (usage notification)
+//        2 = Var_assigner before `resp <-` (answer to the requester)
+//        3 = Var_assigner before `assignerdone <-`
+//        4 = Usage_Monitor before `usagedone <-`
+//
+// VERIF_SCHED_SEED (read at every call, so an in-process harness can change it between cases):
+//   unset / "" / "0"   no perturbation
+//   "s<site>:<us>[,s<site>:<us>...]"   sleep <us> microseconds at every visit of <site>
+//                      (e.g. "s1:3000" makes the allocator lose the race for the monitor)
+//   <n>                pseudo-random: at each visit, from hash(n, site, visit counter):
+//                      nothing / runtime.Gosched() / sleep 50..800 microseconds
+
+var verifCounter uint64
+
+func verifYield(site int) {
+	s := os.Getenv("VERIF_SCHED_SEED")
+	if s == "" || s == "0" {
+		return
+	}
+	if s[0] == 's' {
+		// explicit forcing
+		i := 0
+		for i < len(s) {
+			if s[i] != 's' {
+				return
+			}
+			j := i + 1
+			for j < len(s) && s[j] != ':' {
+				j++
+			}
+			k := j + 1
+			for k < len(s) && s[k] != ',' {
+				k++
+			}
+			if j >= len(s) {
+				return
+			}
+			st, err1 := strconv.Atoi(s[i+1 : j])
+			us, err2 := strconv.Atoi(s[j+1 : k])
+			if err1 == nil && err2 == nil && st == site {
+				if us == 0 {
+					runtime.Gosched()
+				} else {
+					time.Sleep(time.Duration(us) * time.Microsecond)
+				}
+			}
+			i = k + 1
+		}
+		return
+	}
+	n, err := strconv.ParseUint(s, 10, 64)
+	if err != nil {
+		return
+	}
+	c := atomic.AddUint64(&verifCounter, 1)
+	z := n*0x9E3779B97F4A7C15 + uint64(site)*0xBF58476D1CE4E5B9 + c*0x94D049BB133111EB
+	z = (z ^ (z >> 30)) * 0xBF58476D1CE4E5B9
+	z = (z ^ (z >> 27)) * 0x94D049BB133111EB
+	z = z ^ (z >> 31)
+	switch z % 4 {
+	case 0:
+	case 1:
+		runtime.Gosched()
+	default:
+		time.Sleep(time.Duration(50+(z>>8)%750) * time.Microsecond)
+	}
+}
